@@ -44,11 +44,16 @@ struct Scenario
 	}
 	void invoked(Rec* r, error_code const& ec, std::string const& extra = "")
 	{
+		if (frame_depth > 1) ++r->st->inline_calls; // (this handler's own frame is already counted)
 		r->inv.push_back(std::make_pair(now_ns(), ecs(ec) + extra));
 		if (throw_next) { throw_next = false; ++thrown; throw user_error{ 42 }; }
 	}
-	template <class F> auto h_ec(Rec* r, F cont) { return track(r->st, [this, r, cont](error_code const& ec) { invoked(r, ec); cont(ec); }); }
-	template <class F> auto h_ec_n(Rec* r, F cont) { return track(r->st, [this, r, cont](error_code const& ec, std::size_t n) { invoked(r, ec, fmt("/%zu", n)); cont(ec, n); }); }
+	// handlers run from the event loop only: one that starts while another harness frame (a handler, build(), an action) is
+	// still on the stack was invoked from inside a call that frame made - whichever call it was
+	int frame_depth = 0;
+	struct Frame { Scenario* s; explicit Frame(Scenario* x) : s(x) { ++s->frame_depth; } ~Frame() { --s->frame_depth; } };
+	template <class F> auto h_ec(Rec* r, F cont) { return track(r->st, [this, r, cont](error_code const& ec) { Frame f(this); invoked(r, ec); cont(ec); }); }
+	template <class F> auto h_ec_n(Rec* r, F cont) { return track(r->st, [this, r, cont](error_code const& ec, std::size_t n) { Frame f(this); invoked(r, ec, fmt("/%zu", n)); cont(ec, n); }); }
 	auto h_ec(Rec* r) { return h_ec(r, [](error_code const&) {}); }
 	auto h_ec_n(Rec* r) { return h_ec_n(r, [](error_code const&, std::size_t) {}); }
 
@@ -93,7 +98,7 @@ struct Scenario
 	{
 		for (auto& r : recs) if (r->obj == obj && !r->hit) { r->hit = true; r->t_hit = now_ns(); r->was_outstanding_at_hit = r->st->invoked == 0; }
 	}
-	void add(std::string const& nm, int obj, std::function<void()> f) { bool is_move = nm.find("move-construct") != std::string::npos; actions.push_back(Action{ nm, obj, [this, obj, f, is_move]() { if (!is_move) hit(obj); VF_API(f()); } }); }
+	void add(std::string const& nm, int obj, std::function<void()> f) { bool is_move = nm.find("move-construct") != std::string::npos; actions.push_back(Action{ nm, obj, [this, obj, f, is_move]() { Frame fr(this); if (!is_move) hit(obj); VF_API(f()); } }); }
 };
 
 // ---------------------------------------------------------------------------------------------
@@ -102,9 +107,9 @@ struct Scenario
 
 struct TimerWait : Scenario
 {
-	std::unique_ptr<asio::high_resolution_timer> t, t2; int kind; // 0 arm + wait; 1 arm, wait, cancel, wait again (the timer is queued again for its old expiry); 2 arm, cancel, wait
+	std::unique_ptr<asio::high_resolution_timer> t, t2, t3; int kind; // 0 arm + wait; 1 arm, wait, cancel, wait again (the timer is queued again for its old expiry); 2 arm, cancel, wait
 	explicit TimerWait(int k = 0) : kind(k) {}
-	const char* name() const override { return kind == 0 ? "timer-wait" : kind == 1 ? "timer-wait-cancel-wait" : "timer-cancel-wait"; }
+	const char* name() const override { return kind == 0 ? "timer-wait" : kind == 1 ? "timer-wait-cancel-wait" : kind == 2 ? "timer-cancel-wait" : "timer-wait-started-from-a-handler-after-the-expiry"; }
 	void build() override
 	{
 		basic_world(); asio::io_context& n = node("10.0.0.1");
@@ -113,22 +118,25 @@ struct TimerWait : Scenario
 		if (kind == 0) t->async_wait(h_ec(rec("T.wait", 0)));
 		if (kind == 1) { t->async_wait(h_ec(rec("T.wait(first)", 5))); t->cancel(); t->async_wait(h_ec(rec("T.wait", 0))); }
 		if (kind == 2) { t->cancel(); t->async_wait(h_ec(rec("T.wait", 0))); }
+		if (kind == 3) { t->expires_after(ms(5)); t3.reset(new asio::high_resolution_timer(n)); t3->expires_after(ms(12)); t3->async_wait([this](error_code const& ec) { if (ec || dead[0] || !t) return; Frame f(this); t->async_wait(h_ec(rec("T.wait", 0))); }); }
 		t2->expires_after(ms(10)); t2->async_wait(h_ec(rec("T2.wait", 1), [this](error_code const&) { if (!dead[1]) { t2->expires_after(ms(5)); t2->async_wait(h_ec(rec("T2.wait2", 1))); } }));
 		add("T.cancel", 0, [this]() { if (t) t->cancel(); });
 		add("T.expires_after(re-arm)", 0, [this]() { if (t) t->expires_after(ms(3)); });
 		add("T.destroy", 0, [this]() { t.reset(); dead[0] = true; });
 		add("T2.destroy", 1, [this]() { t2.reset(); dead[1] = true; });
 	}
-	void destroy_objects() override { t.reset(); t2.reset(); }
+	void destroy_objects() override { t3.reset(); t.reset(); t2.reset(); }
 };
 
 // client connects to a listener; variants: accept overload / whether and when the accept is posted
 struct ConnectAccept : Scenario
 {
 	int overload; int when; // when: 0 accept posted up front, 1 never posted (SYN stays queued), 2 posted late (SYN already queued)
+	int early = 0; // 1: the connecting socket starts a read and a write right after async_connect(), 2: a wait-for-read and a write (the socket parks them until the handshake is over)
+	std::vector<char> erb; std::string ewb;
 	std::string nm;
 	std::unique_ptr<ip::tcp::socket> cli, peer, got; std::unique_ptr<ip::tcp::acceptor> acc; std::unique_ptr<asio::high_resolution_timer> late;
-	ConnectAccept(int o, int w_) : overload(o), when(w_) { nm = fmt("connect-accept(overload %d, %s)", o, w_ == 0 ? "accept first" : w_ == 1 ? "no accept" : "accept after the SYN"); }
+	ConnectAccept(int o, int w_, int e = 0) : overload(o), when(w_), early(e) { nm = fmt("connect-accept(overload %d, %s%s)", o, w_ == 0 ? "accept first" : w_ == 1 ? "no accept" : "accept after the SYN", e == 1 ? ", read+write started during the handshake" : e == 2 ? ", wait-for-read+write started during the handshake" : ""); }
 	const char* name() const override { return nm.c_str(); }
 	void post_accept(const char* label, int ov = -1)
 	{
@@ -136,7 +144,7 @@ struct ConnectAccept : Scenario
 		if (ov == 0) acc->async_accept(*peer, h_ec(r));
 		else if (ov == 1) { // the endpoint variable lives exactly as long as the operation: it is part of the handler's state
 			auto pe = std::make_shared<ip::tcp::endpoint>(); acc->async_accept(*peer, *pe, h_ec(r, [pe](error_code const&) {})); }
-		else acc->async_accept(track(r->st, [this, r](error_code const& ec, ip::tcp::socket s) { invoked(r, ec); if (!ec) got.reset(new ip::tcp::socket(std::move(s))); }));
+		else acc->async_accept(track(r->st, [this, r](error_code const& ec, ip::tcp::socket s) { Frame f(this); invoked(r, ec); if (!ec) got.reset(new ip::tcp::socket(std::move(s))); }));
 	}
 	void build() override
 	{
@@ -146,6 +154,9 @@ struct ConnectAccept : Scenario
 		if (when == 0) post_accept("A.accept");
 		if (when == 2) { late.reset(new asio::high_resolution_timer(sim->get_io_context())); late->expires_after(ms(30)); late->async_wait([this](error_code const& ec) { if (!ec && !dead[1]) post_accept("A.accept(late)"); }); }
 		cli->async_connect(ip::tcp::endpoint(addr("10.0.1.1"), 6000), h_ec(rec("C.connect", 0)));
+		if (early) { erb.resize(100); ewb.assign(3000, 'e');
+			if (early == 1) cli->async_read_some(asio::buffer(erb), h_ec_n(rec("C.read(during handshake)", 0))); else cli->async_wait(ip::tcp::socket::wait_read, h_ec(rec("C.wait_read(during handshake)", 0)));
+			cli->async_write_some(asio::buffer(ewb), h_ec_n(rec("C.write(during handshake)", 0))); }
 		start_bystander();
 		add("C.cancel", 0, [this]() { if (cli) cli->cancel(); });
 		add("C.close", 0, [this]() { error_code ec; if (cli) cli->close(ec); });
@@ -182,8 +193,8 @@ struct Established : Scenario
 	int kind; // 0 read pending (no data), 1 blocked write, 2 wait-for-read pending, 3 bulk transfer (loss-free), 4 bulk transfer over a lossy route, 5 bulk transfer both ways over a lossy route (each end reads and writes)
 	std::string nm;
 	std::unique_ptr<ip::tcp::socket> cli, srv; std::unique_ptr<ip::tcp::acceptor> acc;
-	std::vector<char> rb, wb, rb2, rbc; int64_t sent = 0, total = 0, sent_s = 0; std::string got, got_c; bool accept_done = false;
-	Established(int k) : kind(k) { static const char* n[] = { "tcp-read-pending", "tcp-write-blocked", "tcp-wait-read-pending", "tcp-bulk-lossfree", "tcp-bulk-lossy", "tcp-duplex-lossy" }; nm = n[k]; }
+	std::vector<char> rb, wb, rb2, rbc; int64_t sent = 0, total = 0, sent_s = 0; std::string got, got_c; bool accept_done = false; std::unique_ptr<asio::high_resolution_timer> late;
+	Established(int k) : kind(k) { static const char* n[] = { "tcp-read-pending", "tcp-write-blocked", "tcp-wait-read-pending", "tcp-bulk-lossfree", "tcp-bulk-lossy", "tcp-duplex-lossy", "tcp-read-started-from-a-handler-with-data-queued", "tcp-wait-read-started-from-a-handler-with-data-queued" }; nm = n[k]; }
 	const char* name() const override { return nm.c_str(); }
 	void reader()
 	{
@@ -213,6 +224,12 @@ struct Established : Scenario
 			case 1: total = 9000; writer(); break; // first write fills the window, the second one blocks until ACKs arrive
 			case 2: srv->async_wait(ip::tcp::socket::wait_read, h_ec(rec("S.wait_read", 1))); break;
 			case 5: total = 30000; rbc.resize(700); reader(); writer(); reader_c(); writer_s(); break;
+			case 6: case 7: // the peer's bytes arrive first; the read (or wait-for-read) is started 30 ms later, from a timer handler
+				cli->async_write_some(asio::buffer("hello", 5), h_ec_n(rec("C.write", 0)));
+				late.reset(new asio::high_resolution_timer(sim->get_io_context())); late->expires_after(ms(30));
+				late->async_wait([this](error_code const& ec) { if (ec || dead[1] || !srv || !srv->is_open()) return; Frame f(this);
+					if (kind == 6) srv->async_read_some(asio::buffer(rb), h_ec_n(rec("S.read", 1))); else srv->async_wait(ip::tcp::socket::wait_read, h_ec(rec("S.wait_read", 1))); });
+				break;
 			default: total = 30000; reader(); writer(); break;
 		}
 	}
@@ -244,15 +261,15 @@ struct Established : Scenario
 		add("C.move-construct, destroy source", 0, [this]() { if (!cli || !cli->is_open() || cli->m_recv_handler || cli->m_wait_recv_handler || cli->m_send_handler || cli->m_connect_handler) return;
 			std::unique_ptr<ip::tcp::socket> n2(new ip::tcp::socket(std::move(*cli))); cli = std::move(n2); });
 	}
-	void destroy_objects() override { cli.reset(); srv.reset(); acc.reset(); }
+	void destroy_objects() override { late.reset(); cli.reset(); srv.reset(); acc.reset(); }
 };
 
 struct UdpOps : Scenario
 {
 	int kind; // 0 async_receive pending, 1 async_receive_from with a datagram on its way, 2 wait-read pending, 3 wait-write pending (small send buffer, big backlog)
 	std::string nm;
-	std::unique_ptr<ip::udp::socket> a, b; std::vector<char> rb; ip::udp::endpoint from; std::string big;
-	UdpOps(int k) : kind(k) { static const char* n[] = { "udp-receive-pending", "udp-receive_from-datagram-in-flight", "udp-wait-read-pending", "udp-wait-write-pending" }; nm = n[k]; }
+	std::unique_ptr<ip::udp::socket> a, b; std::vector<char> rb; ip::udp::endpoint from; std::string big; std::unique_ptr<asio::high_resolution_timer> late;
+	UdpOps(int k) : kind(k) { static const char* n[] = { "udp-receive-pending", "udp-receive_from-datagram-in-flight", "udp-wait-read-pending", "udp-wait-write-pending", "udp-wait-read-started-from-a-handler-with-a-datagram-queued", "udp-receive-started-from-a-handler-with-a-datagram-queued" }; nm = n[k]; }
 	const char* name() const override { return nm.c_str(); }
 	void build() override
 	{
@@ -265,6 +282,12 @@ struct UdpOps : Scenario
 			case 0: b->async_receive(asio::buffer(rb), h_ec_n(rec("B.receive", 1))); break;
 			case 1: b->async_receive_from(asio::buffer(rb), from, h_ec_n(rec("B.receive_from", 1))); a->send_to(asio::buffer("hello", 5), ip::udp::endpoint(addr("10.0.1.1"), 5000), 0, ec); break;
 			case 2: b->async_wait(ip::udp::socket::wait_read, h_ec(rec("B.wait_read", 1))); break;
+			case 4: case 5: {
+				a->send_to(asio::buffer("queued", 6), ip::udp::endpoint(addr("10.0.1.1"), 5000), 0, ec); a->send_to(asio::buffer("second", 6), ip::udp::endpoint(addr("10.0.1.1"), 5000), 0, ec);
+				late.reset(new asio::high_resolution_timer(sim->get_io_context())); late->expires_after(ms(20));
+				late->async_wait([this](error_code const& e2) { if (e2 || dead[1] || !b || !b->is_open()) return; Frame f(this);
+					if (kind == 4) b->async_wait(ip::udp::socket::wait_read, h_ec(rec("B.wait_read", 1))); else b->async_receive_from(asio::buffer(rb), from, h_ec_n(rec("B.receive_from", 1))); });
+				break; }
 			case 3: {
 				a->set_option(boost::asio::socket_base::send_buffer_size(3000), ec);
 				big.assign(60000, 'x');
@@ -285,16 +308,16 @@ struct UdpOps : Scenario
 		if (kind == 3) add("A.send_to(while waiting)", 0, [this]() { error_code e; if (a && a->is_open()) a->send_to(asio::buffer("x", 1), ip::udp::endpoint(addr("10.0.1.1"), 5000), 0, e); });
 		if (kind != 3) add("B.move-construct, destroy source", 1, [this]() { if (!b || !b->is_open() || b->m_recv_handler || b->m_wait_recv_handler) return; /* only when nothing is outstanding */ std::unique_ptr<ip::udp::socket> n2(new ip::udp::socket(std::move(*b))); b = std::move(n2); });
 	}
-	void destroy_objects() override { a.reset(); b.reset(); }
+	void destroy_objects() override { late.reset(); a.reset(); b.reset(); }
 };
 
 struct Resolve : Scenario
 {
 	int kind; // 0 one host name, 1 literal, 2 two queued names
-	std::string nm; std::unique_ptr<ip::tcp::resolver> r; std::unique_ptr<ip::udp::resolver> ur;
-	Resolve(int k) : kind(k) { static const char* n[] = { "resolve-name", "resolve-literal", "resolve-two-queued" }; nm = n[k]; }
+	std::string nm; std::unique_ptr<ip::tcp::resolver> r; std::unique_ptr<ip::udp::resolver> ur; std::unique_ptr<asio::high_resolution_timer> late;
+	Resolve(int k) : kind(k) { static const char* n[] = { "resolve-name", "resolve-literal", "resolve-two-queued", "resolve-literal-started-from-a-handler" }; nm = n[k]; }
 	const char* name() const override { return nm.c_str(); }
-	template <class RT> auto h_res(Rec* rc) { return track(rc->st, [this, rc](error_code const& ec, RT res) { invoked(rc, ec, fmt("/%zu", res.size())); }); }
+	template <class RT> auto h_res(Rec* rc) { return track(rc->st, [this, rc](error_code const& ec, RT res) { Frame f(this); invoked(rc, ec, fmt("/%zu", res.size())); }); }
 	void build() override
 	{
 		basic_world(); w->hosts["n10"] = World::Host{ { addr("10.1.0.2") }, error_code(), ms(10) }; w->hosts["n50"] = World::Host{ { addr("10.1.0.3") }, error_code(), ms(50) };
@@ -302,6 +325,7 @@ struct Resolve : Scenario
 		r.reset(new ip::tcp::resolver(n)); ur.reset(new ip::udp::resolver(n));
 		if (kind == 0) r->async_resolve("n10", "80", h_res<ip::tcp::resolver::results_type>(rec("R.resolve(n10)", 0)));
 		if (kind == 1) r->async_resolve("10.2.3.4", "80", h_res<ip::tcp::resolver::results_type>(rec("R.resolve(literal)", 0)));
+		if (kind == 3) { late.reset(new asio::high_resolution_timer(sim->get_io_context())); late->expires_after(ms(7)); late->async_wait([this](error_code const& ec) { if (ec || dead[0] || !r) return; Frame f(this); r->async_resolve("10.2.3.4", "80", h_res<ip::tcp::resolver::results_type>(rec("R.resolve(literal)", 0))); }); }
 		if (kind == 2) { r->async_resolve("n10", "80", h_res<ip::tcp::resolver::results_type>(rec("R.resolve(n10)", 0))); r->async_resolve("n50", "81", h_res<ip::tcp::resolver::results_type>(rec("R.resolve(n50)", 0)));
 			ur->async_resolve("n50", "82", h_res<ip::udp::resolver::results_type>(rec("UR.resolve(n50)", 1))); }
 		add("R.cancel", 0, [this]() { if (r) r->cancel(); });
@@ -309,18 +333,19 @@ struct Resolve : Scenario
 		add("R.destroy", 0, [this]() { r.reset(); dead[0] = true; });
 		if (kind == 2) add("UR.destroy", 1, [this]() { ur.reset(); dead[1] = true; });
 	}
-	void destroy_objects() override { r.reset(); ur.reset(); }
+	void destroy_objects() override { late.reset(); r.reset(); ur.reset(); }
 };
 
 std::vector<std::function<std::unique_ptr<Scenario>()>> scenario_table()
 {
 	std::vector<std::function<std::unique_ptr<Scenario>()>> t;
-	for (int k = 0; k < 3; ++k) t.push_back([k]() { return std::unique_ptr<Scenario>(new TimerWait(k)); });
+	for (int k = 0; k < 4; ++k) t.push_back([k]() { return std::unique_ptr<Scenario>(new TimerWait(k)); });
 	for (int o = 0; o < 3; ++o) for (int wn = 0; wn < 3; ++wn) t.push_back([o, wn]() { return std::unique_ptr<Scenario>(new ConnectAccept(o, wn)); });
+	for (int e = 1; e <= 2; ++e) for (int wn = 0; wn < 2; ++wn) t.push_back([e, wn]() { return std::unique_ptr<Scenario>(new ConnectAccept(e == 1 ? 0 : 2, wn, e)); });
 	t.push_back([]() { return std::unique_ptr<Scenario>(new ConnectRefused); });
-	for (int k = 0; k < 6; ++k) t.push_back([k]() { return std::unique_ptr<Scenario>(new Established(k)); });
-	for (int k = 0; k < 4; ++k) t.push_back([k]() { return std::unique_ptr<Scenario>(new UdpOps(k)); });
-	for (int k = 0; k < 3; ++k) t.push_back([k]() { return std::unique_ptr<Scenario>(new Resolve(k)); });
+	for (int k = 0; k < 8; ++k) t.push_back([k]() { return std::unique_ptr<Scenario>(new Established(k)); });
+	for (int k = 0; k < 6; ++k) t.push_back([k]() { return std::unique_ptr<Scenario>(new UdpOps(k)); });
+	for (int k = 0; k < 4; ++k) t.push_back([k]() { return std::unique_ptr<Scenario>(new Resolve(k)); });
 	return t;
 }
 
@@ -333,7 +358,7 @@ RunResult execute(std::function<std::unique_ptr<Scenario>()> const& mk, std::vec
 {
 	RunResult R;
 	std::unique_ptr<Scenario> S = mk();
-	S->build();
+	{ Scenario::Frame bf(S.get()); S->build(); }
 	int boundary = 0; size_t next = 0; uint64_t steps = 0;
 	std::vector<std::string> applied;
 	auto apply_due = [&]() {
